@@ -137,7 +137,7 @@ namespace RNacos.Props.C02
 open RNacos.LogManager RNacos.LogStore
 
 /-- the list specification's view of a catalogue -/
-def absStore (fs : List File) (t : Nat) (p : Option (Nat × Nat)) : Store := ⟨absEnts fs, absNext fs, t, p⟩
+def absStore (fs : List File) (t : Nat) (p : Option (Nat × Nat)) : Store := { ents := absEnts fs, next := absNext fs, lastTerm := t, prePtr := p }
 
 /-- **append / replicate refine the specification for every file geometry**: a contiguous batch is taken iff the
 specification takes it, the visible log and the next expected index are the specification's, the catalogue stays
